@@ -1,13 +1,16 @@
 (* one entry point for the extracted model: first integer = property / function selector *)
 From Coq Require Import ZArith List.
 Import ListNotations.
-Require Import EV.model.Cfg EV.model.Enc EV.model.ChanFileRun EV.model.GroupIds EV.model.C20Run EV.model.FrameRun EV.model.CodecRun EV.model.PoolRun EV.model.Exec EV.model.ExecRun EV.model.Chan EV.model.ChanRun EV.model.Ids EV.model.IdsRun EV.model.RSync EV.model.RSyncRun EV.model.ProxyRun EV.model.FdTable EV.model.FdRun EV.gen.Facts.
+Require Import EV.model.Cfg EV.model.Enc EV.model.ChanFileRun EV.model.GroupIds EV.model.C20Run EV.model.FrameRun EV.model.CodecRun EV.model.PoolRun EV.model.Exec EV.model.ExecRun EV.model.Chan EV.model.ChanRun EV.model.Ids EV.model.IdsRun EV.model.RSync EV.model.RSyncRun EV.model.ProxyRun EV.model.FdTable EV.model.FdRun EV.model.TermRun EV.gen.Facts.
 Open Scope Z_scope.
 
 Definition dispatch (inp : list Z) : list Z :=
   match inp with
   | 1 :: 0 :: r => run_dumps int_lo_checked r
   | 1 :: 1 :: r => run_loads r
+  | 5 :: 0 :: r => run_safe_terminate r
+  | 5 :: 1 :: r => run_rounds r
+  | 11 :: r => run_ladder (Z.of_nat ladder_t1 :: Z.of_nat ladder_t2 :: r)
   | 6 :: r => run_fd init_popen_ops r
   | 8 :: 0 :: r => run_frames r
   | 8 :: 1 :: r => run_decode r
